@@ -58,7 +58,7 @@ class Fn:
     """one function to translate: where it is, how its parameters are typed"""
 
     def __init__(self, qualname, params=None, ret=None, self_attrs=None, enum_attrs=None, fuel=None, lean_name=None,
-                 err=None, consts=None, fn_params=None, const_calls=None, opaque_fns=None, const_exprs=None):
+                 err=None, consts=None, fn_params=None, const_calls=None, opaque_fns=None, const_exprs=None, opaque_index=None):
         self.qualname = qualname                  # "Class.method" or "function"
         self.params = params or {}                # python parameter name -> "Int" | "Rat" | "Bool" (overrides annotations)
         self.ret = ret                            # Lean return type, e.g. "Int", "Rat", "Int × Int"
@@ -72,6 +72,9 @@ class Fn:
         self.const_calls = const_calls or {}      # normalised text of a call expression -> (Lean parameter name, type)
         self.opaque_fns = opaque_fns or {}        # python callable (e.g. "self._theta") -> (Lean parameter name, [arg types], ret type)
         self.const_exprs = const_exprs or {}      # normalised text of any expression (e.g. "a==-np.inf") -> (Lean parameter name, type)
+        self.opaque_index = opaque_index or {}    # name of an object parameter -> (Lean function parameter, index type, value type): obj[i]
+        # parameter types: "Int" | "Rat" | "Bool", "obj" (an object only used through the opaque_* / const_* tables: no binder),
+        # "fn:<Lean function type>" (a callable parameter, e.g. "fn:Rat → Rat → Rat")
 
 
 class Unit:
@@ -231,6 +234,11 @@ class _Tr(ast.NodeVisitor):
             parts = [(f"({s} : Int)" if t == NUM else s, INT if t == NUM else t) for s, t in parts]
             return "(" + ", ".join(s for s, _ in parts) + ")", " × ".join(t for _, t in parts)
         if isinstance(e, ast.Subscript):
+            if isinstance(e.value, ast.Name) and e.value.id in self.fn.opaque_index:
+                nm, ity, vty = self.fn.opaque_index[e.value.id]
+                self.add_param(nm, f"{ity} → {vty}")
+                si, ti = self.expr(e.slice)
+                return f"({nm} {self.coerce(si, ti, ity) if ti != NUM else '(' + si + ' : ' + ity + ')'})", vty
             if isinstance(e.value, ast.Name) and e.value.id in self.env and "×" in self.env[e.value.id] \
                     and isinstance(e.slice, ast.Constant) and isinstance(e.slice.value, int):
                 tys = [t.strip() for t in self.env[e.value.id].split("×")]
@@ -268,6 +276,16 @@ class _Tr(ast.NodeVisitor):
             self.add_param(nm, "Rat → Rat")
             s, t = self.expr(e.args[0])
             return f"({nm} {self.coerce(s, t, RAT) if t != NUM else '(' + s + ' : Rat)'})", RAT
+        if isinstance(f, ast.Name) and self.env.get(f.id, "").startswith("fn:"):
+            tys = [t.strip() for t in self.env[f.id][3:].split("→")]
+            atys, rty = tys[:-1], tys[-1]
+            if len(e.args) != len(atys):
+                self.bad(e, f"call of {f.id} with {len(e.args)} arguments")
+            parts = []
+            for a, want in zip(e.args, atys):
+                s_, t_ = self.expr(a)
+                parts.append(self.coerce(s_, t_, want) if t_ != NUM else f"({s_} : {want})")
+            return "(" + " ".join([lname(f.id)] + parts) + ")", rty
         if fdot in self.fn.opaque_fns:
             nm, atys, rty = self.fn.opaque_fns[fdot]
             if len(e.args) != len(atys):
@@ -632,7 +650,7 @@ def translate_unit(repo_root, unit: Unit, namespace: str):
             report[q] = f"{unit.path}: {q}: translator recursion limit"
             continue
         node = sig["node"]
-        binders = " ".join(f"({lname(n)} : {t})" for n, t in sig["py_params"])
+        binders = " ".join(f"({lname(n)} : {t[3:] if t.startswith('fn:') else t})" for n, t in sig["py_params"] if t != "obj")
         extra = " ".join(f"({n} : {t})" for n, t in sig["extra"])
         binders = (binders + " " + extra).strip()
         doc = f"/-- {unit.path}:{node.lineno}-{node.end_lineno} `{q}` (translated from the source by harness/py2lean.py) -/"
@@ -644,7 +662,7 @@ def translate_unit(repo_root, unit: Unit, namespace: str):
             inner = textwrap.indent(sig["body"], "    ")
             out.append(f"{doc}\ndef {fn.lean_name}_fuel (fuel : Nat) {binders} : {sig['ret']} :=\n  match fuel with\n"
                        f"  | 0 => {fn.err}\n  | fuel + 1 =>\n{inner}\n")
-            names = " ".join([lname(n) for n, _ in sig["py_params"]] + [n for n, _ in sig["extra"]])
+            names = " ".join([lname(n) for n, t in sig["py_params"] if t != "obj"] + [n for n, _ in sig["extra"]])
             out.append(f"def {fn.lean_name} {binders} : {sig['ret']} := {fn.lean_name}_fuel ({fn.fuel}) {names}\n")
         else:
             out.append(f"{doc}\ndef {fn.lean_name} {binders} : {sig['ret']} :=\n{body}\n")
